@@ -62,7 +62,7 @@ def run(chk):
     chk.rule("C16.E6", "every configparser error while reading or substituting is converted to a configuration error", 7)
     chk.rule("C16.E7", "no denominator on a target's write path can vanish for a row count its validation accepts", 11)
     chk.rule("C16.E8", "every raise on the configuration path raises a ConfigurationException subclass", 40)
-    chk.rule("C16.E9", "main() reports ConfigurationException as 'configuration error - ...'", 1)
+    chk.rule("C16.E9", "the console entry point reports ConfigurationException as 'configuration error - ...' and wires parser and options to its worker", 3)
     chk.rule("C16.E10", "values the reference manual lists as valid are accepted (targets, interpolation, modifiers, forms)", 4)
     chk.rule("C16.E11", "spline()/trans() definitions: wrong part counts, keywords, parameter counts and r_min positions rejected; well-formed accepted", 18)
     chk.rule("C16.E12", "unknown target / form / modifier / interpolation / missing section give configuration errors", 6)
@@ -147,7 +147,7 @@ def species_keys(chk, P):
     I = F.make_interp(P)
     cls = P.cls(CP, "ConfigParser")
     cp = InstV(cls)
-    site = cls.lookup("_pair_species_func").site()
+    site = cls.site_of("_pair_species_func")
     for key in ("AB", "A-B", " A - B ", "A-B-C", "-", ""):
         out = outcome(lambda: W.run_method(I, cp, "_pair_species_func", [Const(key)]))
         want = "accepted" if key.count("-") == 1 else "config-error"
@@ -161,7 +161,7 @@ def species_keys(chk, P):
         out = outcome(lambda: I.call(f, [Const(key)], {}))
         want = "accepted" if key.count("->") == 1 else "config-error"
         chk.ob("C16.E3", "[EAM-Density] key %r -> %s" % (key, want), classify(P, out) == want,
-               site=cls.lookup("_parse_eam_fs_density_line").site(), found=classify(P, out), expect=want, key="C16.E3|fs|%s" % key)
+               site=cls.site_of("_parse_eam_fs_density_line"), found=classify(P, out), expect=want, key="C16.E3|fs|%s" % key)
     # the wrapper turns any ConfigParserException of the key/definition parser into its own message (still a configuration error)
     # [Species]
     for text, want in (("[Species]\nAl.atomic_mass : 26.9\n", "accepted"), ("[Species]\nAl : 26.9\n", "config-error"),
@@ -208,12 +208,12 @@ def table_subsets(chk, P):
                 o2 = out
             want = "accepted" if set(sub) in ({"x", "y"}, {"xy"}) else "config-error"
             chk.ob("C16.E5", "table form with options %s -> %s" % (list(sub) or "none", want), classify(P, o2) == want,
-                   site=cls.lookup("_parse_data").site(), found=classify(P, o2), expect=want, key="C16.E5|%s" % "+".join(sub))
+                   site=cls.site_of("_parse_data"), found=classify(P, o2), expect=want, key="C16.E5|%s" % "+".join(sub))
 
 
 def parser_errors(chk, P):
     cls = P.cls(CP, "ConfigParser")
-    site = cls.lookup("_init_config_parser").site()
+    site = cls.site_of("_init_config_parser")
     for what, text in (("text that is not an INI file", "hello world\n"), ("an option before any section", "a : 1\n[Pair]\nA-B : as.zero\n"),
                        ("a line that is neither option nor section", "[Pair]\nA-B : as.zero\njust some words\n"),
                        ("duplicate option", "[Pair]\nA-B : as.zero\nA-B : as.zero\n"), ("duplicate section", "[Pair]\nA-B : as.zero\n[Pair]\nC-D : as.zero\n")):
@@ -562,50 +562,32 @@ def _is_local_reraise(fnode, rnode, name):
 
 
 def main_wraps(chk, P):
-    I = F.make_interp(P)
-    fi = P.func("atsim.potentials.tools.potable", "main")
+    fi = W.console_entry(P)
     cfgcls = P.cls(COMMON, "ConfigParserException")
-    seen = {}
-
-    class Parser(object):
-        def m_error(self, J, args, kwargs):
-            seen["error"] = args[0]
-            return NONE
-    I.hooks["atsim.potentials.tools.potable:_parse_command_line"] = lambda i, fv, a, k, n: ListV([PyObjV(Parser()), W.param("args")], "tuple")
-    I.hooks["atsim.potentials.tools.potable:_setup_logging"] = lambda i, fv, a, k, n: NONE
+    CPI = "atsim.potentials.config._config_parser:ConfigParser.__init__"
+    TAB = "atsim.potentials.tools.potable._actions:action_tabulate"
 
     def boom(i, fv, a, k, n):
-        seen["call"] = (list(a), dict(k))
         raise RaiseSignal(ExcV(ClassV(cfgcls), [Const("the message")]), n)
-    I.hooks["atsim.potentials.tools.potable:_do_tabulation"] = boom
-    out = outcome(lambda: I.run(fi, []))
-    msg = seen.get("error")
-    txt = repr(msg)
-    ok = out[0] == "ok" and msg is not None and "configuration error - " in txt
-    chk.ob("C16.E9", "main() catches ConfigurationException (and subclasses) and calls parser.error('configuration error - ...')", ok,
-           site=fi.site(), found=msg if msg is not None else out, expect="configuration error - <message>", key="C16.E9|main")
-    # the worker receives the parser where it expects the parser (the parameter it calls .error() on) and the parsed options in
-    # the other slot
-    dofi = P.func("atsim.potentials.tools.potable", "_do_tabulation")
-    params = dofi.params()
-    perr = set()
-    for n in ast.walk(dofi.node):
-        if isinstance(n, ast.Call) and isinstance(n.func, ast.Attribute) and n.func.attr == "error" and isinstance(n.func.value, ast.Name) \
-                and n.func.value.id in params:
-            perr.add(n.func.value.id)
-    call = seen.get("call")
-    ok2 = False
-    found = call
-    if call is not None and len(perr) == 1:
-        bound = dict(zip(params, call[0]))
-        bound.update(call[1])
-        pp = perr.pop()
-        others = [v for k_, v in bound.items() if k_ != pp]
-        ok2 = isinstance(bound.get(pp), PyObjV) and isinstance(bound[pp].obj, Parser) and len(others) == 1 \
-            and others[0].key() == W.param("args").key()
-        found = dict((k_, repr(v)) for k_, v in bound.items())
-    chk.ob("C16.E9", "main() hands the argument parser and the parsed options to the worker in the worker's parameter order", ok2,
-           site=fi.site(), found=found, expect="%s(parser, options)" % dofi.name, key="C16.E9|main-arguments")
+    given = {"config_file": W.param("config_file"), "out_filename": Const("out")}
+    r = W.run_potable(P, given, hooks={CPI: boom, TAB: lambda i, fv, a, k, n: NONE})
+    msg = r.parser.errors[0] if r.parser.errors else None
+    ok = r.raised is None and msg is not None and "configuration error - " in repr(msg) and "exception" in repr(msg)
+    chk.ob("C16.E9", "the console entry point catches ConfigurationException (and subclasses) raised while the model file is read and "
+                     "calls parser.error('configuration error - ...')", ok,
+           site=fi.site(), found=msg if msg is not None else (r.raised, r.exit), expect="configuration error - <message>", key="C16.E9|main")
+    r2 = W.run_potable(P, given, hooks={TAB: boom, CPI: lambda i, fv, a, k, n: NONE})
+    msg2 = r2.parser.errors[0] if r2.parser.errors else None
+    ok2 = r2.raised is None and msg2 is not None and "configuration error - " in repr(msg2)
+    chk.ob("C16.E9", "... and likewise when it is raised during tabulation", ok2, site=fi.site(),
+           found=msg2 if msg2 is not None else (r2.raised, r2.exit), expect="configuration error - <message>", key="C16.E9|main-tabulate")
+    # parser and parsed options reach the worker where it expects them: a plain run ends with exit status 0
+    r3 = W.run_potable(P, given, hooks={CPI: lambda i, fv, a, k, n: NONE, TAB: lambda i, fv, a, k, n: NONE})
+    code = r3.exit
+    ok3 = r3.raised is None and not r3.parser.errors and code is not None and (getattr(code, "v", 1) is None or (isinstance(code, Num) and code.const() == 0))
+    chk.ob("C16.E9", "a plain 'potable MODEL OUT' run hands the argument parser and the parsed options on in the worker's parameter order "
+                     "and ends with exit status 0", ok3,
+           site=fi.site(), found=(r3.raised, r3.parser.errors, code), expect="exit 0", key="C16.E9|main-arguments")
 
 
 def documented_valid(chk, P):
@@ -631,7 +613,7 @@ def documented_valid(chk, P):
     tb = I.instantiate(P.cls("atsim.potentials.config._table_form_builder", "Table_Form_Builder"), [], {}, None)
     labels = set(k.v for k, _ in tb.attrs["_table_forms"].items.values())
     chk.ob("C16.E10", "every documented interpolation type %s is a registered table form" % doc_interp, bool(doc_interp) and set(doc_interp) <= labels,
-           site=P.cls("atsim.potentials.config._table_form_builder", "Table_Form_Builder").lookup("_populate").site(), found=sorted(labels),
+           site=P.cls("atsim.potentials.config._table_form_builder", "Table_Form_Builder").site_of("_populate"), found=sorted(labels),
            expect=doc_interp, key="C16.E10|interpolation")
     # forms
     sigs = F.manual_signatures(repo)
@@ -652,7 +634,7 @@ def documented_valid(chk, P):
     mr = I.instantiate(P.cls("atsim.potentials.config._modifier_registry", "Modifier_Registry"), [], {}, None)
     regm = set(k.v for k, _ in mr.attrs["_modifiers"].items.values())
     chk.ob("C16.E10", "every documented modifier %s is registered" % sorted(doc_mods), doc_mods <= regm and len(doc_mods) >= 5,
-           site=P.cls("atsim.potentials.config._modifier_registry", "Modifier_Registry").lookup("_register_standard").site(), found=sorted(regm),
+           site=P.cls("atsim.potentials.config._modifier_registry", "Modifier_Registry").site_of("_register_standard"), found=sorted(regm),
            expect=sorted(doc_mods), key="C16.E10|modifiers")
 
 
